@@ -177,6 +177,10 @@ func TestC09_Cluster(t *testing.T) {
 		if out.inconclusive != "" {
 			n09Inconclusive(out.inconclusive)
 		}
+		if out.discarded != "" {
+			st.Class("case discarded: "+out.discarded, 1)
+			return
+		}
 		for i := 0; i < out.info.excludedCreateByUpdate; i++ {
 			st.Exclude("update flag dropped from a request whose LockId is not a holder (known finding " + n09KeyCompaction + ")")
 		}
@@ -188,6 +192,9 @@ func TestC09_Cluster(t *testing.T) {
 		}
 		if out.info.excludedEmptyRingJoin > 0 {
 			st.Exclude("workload paused until the handshake of a follower joining an empty leader finished (known finding " + n09KeyFirstTwice + ")")
+		}
+		if out.info.excludedRotationOverlap > 0 {
+			st.Exclude("rotation waited for file transfers to finish and held back new handshakes (known finding " + n09KeyTransferVsCompaction + ")")
 		}
 		if out.info.excludedEmptyRotation > 0 {
 			st.Exclude("rotation of an empty append file skipped (known finding " + n09KeyWedged + ")")
